@@ -29,9 +29,10 @@ def md5(b: bytes) -> str:
     return hashlib.md5(b).hexdigest()
 
 
-def canonical_dir_bytes(entries: dict[str, str]) -> bytes:
-    """Independent canonical encoder of a directory listing {relpath: file md5}."""
-    lst = [{"md5": h, "relpath": rel} for rel, h in entries.items()]
+def canonical_dir_bytes(entries: dict[str, str], key: str = "md5") -> bytes:
+    """Independent canonical encoder of a directory listing {relpath: file md5}; `key` = the name the entries' hashes go by
+    (the store's algorithm name: "md5", or e.g. "etag" / "checksum" for stores keyed by what a cloud reports)."""
+    lst = [{key: h, "relpath": rel} for rel, h in entries.items()]
     lst.sort(key=lambda e: e["relpath"])
     return json.dumps(lst, sort_keys=True).encode("utf-8")
 
@@ -51,7 +52,7 @@ CONTENT_CLASSES = [
 class Universe:
     """Model ids <-> concrete data.  files: ["f1",..]; dirs: {"d1": ["f1","f2"], ...}."""
 
-    def __init__(self, files, dirs: dict[str, list[str]], seed=0, allow_empty=True, pads=0, no_crlf=False):
+    def __init__(self, files, dirs: dict[str, list[str]], seed=0, allow_empty=True, pads=0, no_crlf=False, entry_key="md5"):
         # no_crlf: contents on which the legacy text-normalising md5 equals the plain md5 (for stores of that algorithm)
         rng = random.Random(seed)
         self.files = list(files)
@@ -87,7 +88,7 @@ class Universe:
                 # two names that differ in their Unicode normalisation form only (distinct files on Linux)
                 names[:2] = ["sub/caf\u00e9.txt", "sub/cafe\u0301.txt"]
             self.relpaths[d] = dict(zip(names, fs))  # relpath -> file id
-            b = canonical_dir_bytes({rel: self.oid[f] for rel, f in self.relpaths[d].items()})
+            b = canonical_dir_bytes({rel: self.oid[f] for rel, f in self.relpaths[d].items()}, entry_key)
             self.content[d] = b
             self.oid[d] = md5(b) + ".dir"
         self.rev = {v: k for k, v in self.oid.items()}
@@ -322,7 +323,7 @@ class World:
                 for x in self.uni.oids:
                     p = self.obj_path(s, x)
                     if os.path.isfile(p):
-                        hash_file(p, fs, self.alg, self.state)
+                        hash_file(p, fs, self.alg if self.alg.startswith("md5") else "md5", self.state)
 
     def close(self):
         if self.state is not None:
